@@ -43,3 +43,21 @@ package api
 //@ contract (*Router).HasRoute
 //@   requires routerInv(rtr)
 //@   ensures result <==> (inmap(rtr.routes, portID) || exists p string :: inmap(rtr.prefixRoutes, p) && hasPrefix(portID, p))
+
+// ---- application callbacks (IBC v2): opaque; each call is counted in a ghost counter
+
+//@ contract interface IBCModule.OnSendPacket
+//@   modifies world(ctx), calls v2OnSendPacket
+//@   ensures calls("v2OnSendPacket") == old(calls("v2OnSendPacket")) + 1
+
+//@ contract interface IBCModule.OnRecvPacket
+//@   modifies world(ctx), calls v2OnRecvPacket
+//@   ensures calls("v2OnRecvPacket") == old(calls("v2OnRecvPacket")) + 1
+
+//@ contract interface IBCModule.OnAcknowledgementPacket
+//@   modifies world(ctx), calls v2OnAcknowledgementPacket
+//@   ensures calls("v2OnAcknowledgementPacket") == old(calls("v2OnAcknowledgementPacket")) + 1
+
+//@ contract interface IBCModule.OnTimeoutPacket
+//@   modifies world(ctx), calls v2OnTimeoutPacket
+//@   ensures calls("v2OnTimeoutPacket") == old(calls("v2OnTimeoutPacket")) + 1
